@@ -50,6 +50,8 @@ class StrPatchwork(object):
                 # XXX hack [x:] give 2GB limit
                 # This is inefficient but avoids complicated maths if step is
                 # not 1
+                if item.start is not None and item.start < 0:
+                    item = slice(max(l + item.start, 0), item.stop, item.step)
                 s = s[:]
 
                 tmp = array("B")
